@@ -277,6 +277,39 @@ def Table.fieldsOfClass (T : Table) (cls : Nat) : List Nat :=
     | some fd => fd.cls == cls
     | none => false
 
+/-! ### thread confinement of the user's model objects
+
+The translator turns every call of a pure virtual function of `MeasurementModel` (`freeze`, `measure`,
+`predictedMeasure`, `innovation`), of `LikelihoodModel::likelihood` and of
+`ParticleSetInitialization::initialize` into a write of a pseudo-member `user::<interface>_state` at the call
+site: the models are user code whose state the filtering thread reads and writes in every step.  A member
+is *controller-free* when no function the controller role can execute has a row for it. -/
+
+def modelStateFields : List (Nat × Nat) :=
+  [ (name% "user", name% "measurement_model_state"), (name% "user", name% "likelihood_model_state"),
+    (name% "user", name% "initialization_state") ]
+
+/-- no function in the set `SC` touches member `f` -/
+def Table.controllerFreeIn (T : Table) (SC : Nat) (f : Nat) : Bool := (T.rowsOn SC f).isEmpty
+
+/-- every model-state pseudo-member exists, is touched by the functions in `SF` and by none in `SC` -/
+def Table.modelConfinedIn (T : Table) (SC SF : Nat) : Bool :=
+  (T.fieldIds modelStateFields).length == modelStateFields.length &&
+  (T.fieldIds modelStateFields).all fun f => T.controllerFreeIn SC f && !(T.rowsOn SF f).isEmpty
+
+def Table.modelConfinedB (T : Table) : Bool := T.modelConfinedIn (T.reach .controller) (T.reach .filter)
+
+/-- the pseudo-member standing for the state of the user's filter touched by its hooks (`initialization_step`,
+    `filtering_step`, `run_condition` and their overriders in `SIS`, `Logger::log`) -/
+def hookStateFields : List (Nat × Nat) := [ (name% "user", name% "hook_state") ]
+
+/-- the members named exist, are touched by the functions in `SF` and by none in `SC` -/
+def Table.confinedIn (T : Table) (names : List (Nat × Nat)) (SC SF : Nat) : Bool :=
+  (T.fieldIds names).length == names.length &&
+  (T.fieldIds names).all fun f => T.controllerFreeIn SC f && !(T.rowsOn SF f).isEmpty
+
+def Table.hooksConfinedB (T : Table) : Bool := T.confinedIn hookStateFields (T.reach .controller) (T.reach .filter)
+
 /-- (function creating a thread, function handed to `std::thread`) for every such place in the library -/
 def Table.spawns (T : Table) : List (Nat × Nat) :=
   (T.calls.filter fun c => c.kind == .spawn).map fun c =>
@@ -444,5 +477,9 @@ def FieldOK (T : Table) (f : Nat) : Prop :=
 /-- full-strength statement of the property for a table: no conforming well-formed interleaving
     of the controller thread and the filtering thread contains a data race -/
 def RaceFree (T : Table) : Prop := ∀ tr, WF tr → Conforms T tr → ¬ Race tr
+
+/-- no function the controller role can reach has an access row for member `f` -/
+def ControllerFree (T : Table) (f : Nat) : Prop :=
+  ∀ r ∈ T.accesses, Reach T (T.rootIds .controller) r.meth → r.field ≠ f
 
 end BFL.Race
